@@ -1,7 +1,9 @@
 # /verif top-level: `make setup` builds the Coq development (full .vo build,
 # no -vos) and the extracted OCaml driver from files on disk only.
-.PHONY: setup coq driver lint clean
-setup: coq driver
+.PHONY: setup gen coq driver lint clean
+setup: gen coq driver
+gen:
+	python3 tools/gen_all.py
 coq:
 	cd coq && coq_makefile -f _CoqProject -o Makefile $$(find . -name '*.v' | sort) && timeout 3000 $(MAKE) -k -j16
 driver:
